@@ -46,6 +46,8 @@ pub struct RepSum {
     pub disposals: BTreeMap<(String, NaiveDate), DispSum>,
     pub holdings: BTreeMap<String, (Decimal, Decimal)>,
     pub years: BTreeMap<u16, YearSum>,
+    /// disposals in the order the report lists them
+    pub order: Vec<(String, NaiveDate)>,
 }
 
 pub fn summarize(r: &TaxReport, skip_ticker: Option<&str>) -> RepSum {
@@ -65,6 +67,7 @@ pub fn summarize(r: &TaxReport, skip_ticker: Option<&str>) -> RepSum {
                 continue;
             }
             ys.count += 1;
+            s.order.push((d.ticker.clone(), d.date));
             let e = s.disposals.entry((d.ticker.clone(), d.date)).or_default();
             e.q += d.quantity;
             e.gross += d.gross_proceeds;
@@ -140,6 +143,9 @@ pub fn compare(a: &RepSum, b: &RepSum, tol: Decimal, years: bool) -> Diff {
         let y = b.holdings.get(k).unwrap_or(&zero);
         if !near(x.0, y.0, tol) { d.deep.push(format!("holding {k}: quantity {} vs {}", x.0, y.0)); }
         if !near(x.1, y.1, tol) { d.deep.push(format!("holding {k}: cost {} vs {}", x.1, y.1)); }
+    }
+    if years && a.disposals.len() == b.disposals.len() && a.order != b.order && d.deep.is_empty() {
+        d.deep.push(format!("disposals are listed in a different order: {:?} vs {:?}", a.order, b.order));
     }
     if years {
         for (k, x) in &a.years {
